@@ -278,6 +278,8 @@ class Interp(object):
                 return self.from_const(consts[attr])
             return NotImplemented
         full = modname + "." + attr
+        if full == "six.moves.urllib_parse":
+            return ModuleRef("urllib.parse")
         if full in B.LIBRARY:
             return B.LIBRARY[full]
         return NotImplemented
